@@ -19,6 +19,8 @@
 
 package version
 
+import "github.com/lindb/lindb/kv/table"
+
 // This file only exists with the "verif" build tag. It lets the external
 // verification harness (C02) run a callback at the point where a version whose
 // reference count dropped to zero is about to be removed from the family's active
@@ -49,4 +51,28 @@ func VerifGateRemoveVersion(fv FamilyVersion, gate func(v Version)) {
 	if cur, ok := f.current.(*version); ok {
 		cur.fv = &verifGatedFamilyVersion{FamilyVersion: f, gate: gate}
 	}
+}
+
+// verifGatedVersionSet forwards everything to the wrapped version set.
+type verifGatedVersionSet struct {
+	StoreVersionSet
+	gate func()
+}
+
+func (g *verifGatedVersionSet) getCache() table.Cache {
+	g.gate()
+	return g.StoreVersionSet.getCache()
+}
+
+// VerifGateGetCache makes the family version call gate whenever it asks its version set for the table
+// cache (GetSnapshot does, between reading the current version and retaining it).
+// Must be called while nothing else uses the family.
+func VerifGateGetCache(fv FamilyVersion, gate func()) {
+	f, ok := fv.(*familyVersion)
+	if !ok || gate == nil {
+		return
+	}
+	f.mutex.Lock()
+	defer f.mutex.Unlock()
+	f.versionSet = &verifGatedVersionSet{StoreVersionSet: f.versionSet, gate: gate}
 }
